@@ -481,6 +481,97 @@ def c03_5(ck, prog):
     lib.must_precede(acq, r3, sinks, guards)
 
 
+def c03_6(ck, prog):
+    r = ck.rule('C03.6', 'unknown-field stripping covers every code above the last known one: the field '
+                'code is held in an unsigned char, codes > DBUS_HEADER_FIELD_LAST are deleted and the rest '
+                'stepped over', 'TS', breaks='unknown header fields in part of the code range 11..255 reach '
+                'receivers', floor=3)
+    last = prog.macro_int('DBUS_HEADER_FIELD_LAST')
+    hdr = 'dbus/dbus-marshal-header.c'
+    nvars = 0
+    for f in lib.prod_funcs(prog, {hdr}):
+        got = {}
+        for b, i, c in f.calls('_dbus_type_reader_read_basic'):
+            v = strip_addr(c['args'][1]) if len(c['args']) > 1 else None
+            if v is not None and is_ref(v) and 'id' in v:
+                got[v['id']] = v
+        if not got:
+            continue
+        used = set()
+        for b, i, ev in f.events():
+            for x in walk(event_expr(ev)):
+                if x.get('k') == 'sub' and is_ref(x['idx']) and x['idx'].get('id') in got:
+                    used.add(x['idx']['id'])
+        for bid, blk in f.blocks.items():
+            t = blk.get('term')
+            if t and t.get('cond') is not None:
+                c = t['cond']
+                if c.get('k') == 'bin' and c['op'] in ('<', '>', '<=', '>=', '==', '!='):
+                    for a, b2 in ((c['l'], c['r']), (c['r'], c['l'])):
+                        if is_ref(a) and a.get('id') in got and (is_int(b2, last) or is_ref(b2, 'field')):
+                            used.add(a['id'])
+        for vid in used:
+            v = got[vid]
+            nvars += 1
+            key = '%s:%s:unsigned-char' % (f.name, v['name'])
+            if v['t'] == 'unsigned char':
+                r.ok(key, {'type': v['t']})
+            else:
+                r.violation(key, f.name, f.file, f.line,
+                            'header field code variable %s has type %s; codes 128..255 compare as negative '
+                            '(must be unsigned char)' % (v['name'], v['t']))
+    if nvars < 2:
+        raise AnalysisBroken('only %d field-code variables found in %s' % (nvars, hdr))
+    fn = prog.fn('_dbus_header_remove_unknown_fields', hdr)
+    seen = {'delete': 0, 'next': 0}
+
+    def atom_key(atom, resolve):
+        if atom[0] == 'cmp' and atom[1] == '<=' and is_ref(atom[2]) and is_int(atom[3], last):
+            return ('known', frozenset([atom[2]['id']]))
+        if atom[0] == 'cmp' and atom[1] == '<' and is_ref(atom[2]) and is_int(atom[3], last + 1):
+            return ('known', frozenset([atom[2]['id']]))
+        return None
+
+    def known(ctx):
+        for k, v in ctx.atoms().items():
+            if k[0] == 'known':
+                return v
+        return None
+
+    def on_event(user, ev, ctx):
+        if ev['ev'] == 'call':
+            cal = ev['e'].get('callee')
+            if cal == '_dbus_type_reader_read_basic':
+                return 'read'
+            if cal == '_dbus_type_reader_delete':
+                seen['delete'] += 1
+                if known(ctx) is not False or user != 'read':
+                    ctx.report('a field is deleted although its code is not known to be > DBUS_HEADER_FIELD_LAST',
+                               ev['line'], key='delete-known')
+                return 'done'
+            if cal == '_dbus_type_reader_next' and is_ref(strip_addr(ev['e']['args'][0]) or {}, 'array'):
+                seen['next'] += 1
+                if known(ctx) is not True or user != 'read':
+                    ctx.report('a field is kept although its code is not known to be <= DBUS_HEADER_FIELD_LAST',
+                               ev['line'], key='keep-unknown')
+                return 'done'
+        return user
+    ex = Explorer(fn, init='idle', on_event=on_event, atom_key=atom_key, track='auto').run()
+    if not seen['delete'] or not seen['next']:
+        raise AnalysisBroken('_dbus_header_remove_unknown_fields: delete/next anchors vanished')
+    if ex.reports:
+        r.from_reports(ex.reports, keyfn=lambda k, rep: '_dbus_header_remove_unknown_fields:%s' % k)
+    else:
+        r.ok('_dbus_header_remove_unknown_fields:delete-iff-code>LAST', {'LAST': last})
+    m = prog.fn('_dbus_message_remove_unknown_fields', 'dbus/dbus-message.c')
+    if any(is_member(strip_addr(c['args'][0]) or {}, 'header', 'DBusMessage')
+           for b, i, c in m.calls('_dbus_header_remove_unknown_fields')):
+        r.ok('_dbus_message_remove_unknown_fields:delegates')
+    else:
+        r.violation('_dbus_message_remove_unknown_fields:delegates', m.name, m.file, m.line,
+                    'no longer strips the message\'s own header')
+
+
 def minor_reset_after_major_inc(fn, reset_line):
     """Every path to the reset crosses `next_major_number += 1` after the last
     loop-head (i.e. in the same iteration)."""
@@ -516,3 +607,4 @@ def run(ck):
         c03_3(ck, prog)
         c03_4(ck, prog)
         c03_5(ck, prog)
+        c03_6(ck, prog)
